@@ -18,7 +18,7 @@
    Not covered by theorems (validated by correspondence/oracle only): that Mode.stop reaches clear(); the timer
    device (see NOTES.md). *)
 From Common Require Import Prelude.
-From C13 Require Import Model Lemmas.
+From C13 Require Import Model Lemmas Timer TimerLemmas.
 Open Scope Z_scope.
 
 (* every event is justified by what happened before it (see [justified] in Lemmas.v):
@@ -115,6 +115,83 @@ Theorem periodic_no_missed_tick :
     exists n, pcalls (snd st) = ticks_desc t0 ival n /\ t <= t0 + (Z.of_nat n + 1) * ival.
 Proof. exact periodic_no_missed_tick_l. Qed.
 Print Assumptions periodic_no_missed_tick.
+
+(* ---- timer device (Timer.v): for every configuration c, every sequence of control events at any instants
+   (start/stop/pause with and without duration/add/subtract/jump/reset/restart/interval changes) and every legal
+   order of system-timer and pause-delay expiries ------------------------------------------------------------ *)
+
+(* a tick event is only ever posted by a running timer *)
+Theorem timer_ticks_only_running :
+  forall c steps t k r, In (TTick t k r) (ttrace c steps) -> r = true.
+Proof. exact timer_ticks_only_running_l. Qed.
+Print Assumptions timer_ticks_only_running.
+
+(* after stop, or pause without a duration, nothing happens by itself: every expiry the loop could try is
+   impossible (rejected), the count does not change, the timer stays not running.
+   (code WITH fixes/C13-timer-pause-supersedes.patch: c_legacy c = false) *)
+Theorem timer_quiet_after_pause_or_stop :
+  forall c a st fires, c_legacy c = false -> (a = AStop \/ a = APause 0) -> forallb is_fire fires = true ->
+    let st1 := do_action c a st in
+    let st2 := trun c fires st1 in
+    running st2 = false /\ ticks st2 = ticks st1 /\
+    exists rej, forallb is_reject rej = true /\ tlog st2 = rej ++ tlog st1.
+Proof.
+  intros c a st fires L A F. cbv zeta.
+  destruct (quiet_state_l c a st L A) as (R & S & P).
+  destruct (quiet_fires_l c fires F _ R S P) as (H1 & _ & _ & H4 & H5). auto.
+Qed.
+Print Assumptions timer_quiet_after_pause_or_stop.
+
+(* the code before that patch: timed pause, then pause without duration -> the timer restarts and counts by itself *)
+Theorem timer_quiet_refuted_before_fix :
+  let st := trun (ex_cfg true) ex_tsteps (tinit (ex_cfg true)) in
+  running st = true /\ ticks st = 2 /\ In (TStarted 1600000 1) (tlog st) /\ In (TTick 2100000 2 true) (tlog st).
+Proof. exact quiet_refuted_before_fix_l. Qed.
+Print Assumptions timer_quiet_refuted_before_fix.
+
+(* a running timer never has a pending pause delay and is never at/after its end value (cfg_ok: with
+   restart_on_complete the start value is not itself a final value — otherwise the code recurses forever) *)
+Theorem timer_running_invariants :
+  forall c steps, c_legacy c = false -> cfg_ok c ->
+    let st := trun c steps (tinit c) in
+    running st = true -> pause st = None /\ is_done c st = false.
+Proof. exact timer_running_invariants_l. Qed.
+Print Assumptions timer_running_invariants.
+
+(* complete exactly when the count reaches the end value: only then ... *)
+Theorem timer_completes_at_end_only :
+  forall c steps t k, In (TComplete t k) (ttrace c steps) -> done_at c k = true.
+Proof. exact timer_complete_only_at_end_l. Qed.
+Print Assumptions timer_completes_at_end_only.
+
+(* ... and always then: _check_for_done (run after every change of the count) on a final count stops the timer and
+   posts complete with that count (restart_on_complete = false; with it the timer restarts: timer_running_invariants) *)
+Theorem timer_completes_at_end :
+  forall c st, c_roc c = false -> is_done c st = true ->
+    let st' := fst (cd0 c st) in
+    running st' = false /\ tlog st' = TComplete (tnow st) (ticks st) :: TStopped (tnow st) (ticks st) :: tlog st.
+Proof. exact timer_completes_when_done_l. Qed.
+Print Assumptions timer_completes_at_end.
+
+(* tick instants: the n-th expiry of the system timer created at b is accepted only at b + n*interval, changes the
+   count by exactly one and re-arms at n+1 (no drift; PeriodicTask itself: periodic_no_drift) *)
+Theorem timer_tick_instants_exact :
+  forall c st b n, sys st = Some (b, n) -> running st = true ->
+    (tnow st <=? b + n * ival st) && le_opt (b + n * ival st) (pause st) = true ->
+    exists st1, fire_tick c st = post_tick_with (cd0 c) st1 /\
+                tnow st1 = b + n * ival st /\ ticks st1 = (if c_down c then ticks st - 1 else ticks st + 1) /\
+                sys st1 = Some (b, n + 1) /\ ival st1 = ival st.
+Proof. exact tick_instant_l. Qed.
+Print Assumptions timer_tick_instants_exact.
+
+Example ex_timer :
+  ttrace (ex_cfg false) ex_tsteps =
+  [TStarted 0 0; TTick 0 0 true; TState 0 true 0 false true; TTick 500000 1 true;
+   TPaused 600000 1; TState 600000 false 1 true false; TPaused 700000 1; TState 700000 false 1 false false;
+   TReject 3; TReject 1] /\ cfg_ok (ex_cfg false) /\
+  is_done (ex_cfg false) (mkTS true 5 500000 None None 0 []) = true.
+Proof. vm_compute. repeat split; auto. Qed.
+Print Assumptions ex_timer.
 
 (* ---- the hypotheses are satisfiable on non-trivial histories -------------------------------------------- *)
 (* script 0 re-adds its own name and run_now's "b"; "a" fires at 250 ms while the world is away, "c" is replaced *)
